@@ -62,6 +62,44 @@ CLAIMS = {
         "position of sig, pk, message and context of sampled valid tuples (honest and forged with a dense hint section) on the crate: exploration, exhaustive per tuple.",
    note=TB + "an exception would be a SHAKE256 collision; tuple count per run is stated in the evidence.",
    tech="Lean 4 proof of hint-bit sensitivity and encoding injectivity + exhaustive single-bit mutation of sampled valid tuples on the crate"),
+ 'C08': dict(cat='proof', ref='DESIGN 5 C08',
+   text="Partial proof + differential execution. Proved in Lean for all byte strings: decoded response coefficients lie in the encoder's domain, whatever BitUnpack accepts is in [-a, b]; by kernel evaluation over complete reduced "
+        "parameter spaces ((k,omega) = (1,2), (2,2), alphabet {0,1,2,3,255}) every hint section is either rejected or re-encodes to itself and never faults (finite tables, labelled as such). Not proved for the real parameters: "
+        "hintUnpack y = some h <-> y = hintPack h and the BitPack/BitUnpack bijection; decided on every run against a bit-level FIPS 204 reference: decode/re-encode of honest and forged signatures, every class of hint malformation, "
+        "range-end vectors and random strings for each (a,b) in use, exhaustive reduced-parameter enumeration, key codecs.",
+   note=TB + "checks/ref/mldsa.py implements Algorithms 9-21 bit by bit (IntegerToBits / BitsToBytes), independent of the crate's streaming accumulators.",
+   tech="Lean 4 proof of decoder range facts + kernel-evaluated reduced-parameter tables + differential execution against a bit-level reference"),
+ 'C09': dict(cat='proof', ref='DESIGN 5 C09',
+   text="Partial proof + differential execution. Proved in Lean: field provenance of deserialised keys (rho / K / tr are the input slices, pk.tr = H(input)), and every accepted private key has its s1, s2, t0 sections inside the ranges the "
+        "serialiser asserts. Not proved: into_bytes . try_from_bytes = id for every input (exact NTT inversion composed with the codecs); decided on every run on all-00 / all-FF / t1 = 1023 / random public keys, private keys with every "
+        "coefficient at either range end, and struct-level equality of generated versus round-tripped keys, in both build profiles.",
+   note=TB + "struct equality is literal equality of every i32 of every field.",
+   tech="Lean 4 proof of field provenance and range facts + byte-exact and struct-exact round trips on extremal and random keys"),
+ 'C10': dict(cat='proof', ref='DESIGN 5 C10',
+   text="Lean theorems for all byte strings (repaired tree): whatever bit_unpack accepts lies in [-a, b]; every private key accepted by sk_decode / expand_private has all s1, s2 coefficients in [-eta, eta] and t0 in [-2^12+1, 2^12], "
+        "which are exactly the ranges sk_encode's self-checks demand. The pinned-tree definition is refuted by kernel evaluation on a concrete accepted field (F1) and the repaired one rejects it. The converse (all-in-range strings are "
+        "accepted and re-serialise identically) is decided by execution over every out-of-range field value at the structural position classes, multi-field and random strings.",
+   note=TB + "F1 was a genuine defect, repaired in /repo by fix: 1e88610.",
+   tech="Lean 4 proof by unfolding the decoder + kernel-evaluated refutation of the pinned definition + per-field differential execution"),
+ 'C11': dict(cat='proof', ref='DESIGN 5 C11',
+   text="Partial proof + differential execution. Proved in Lean: the derived key copies rho and tr, the derivation reads neither K nor t0, key generation stores the same rho and tr in both structs, and equal t1-precomputes make the two "
+        "public keys the same struct. Not proved: the recomputed t1 precompute equals the generated one for every key (NTT pipeline); decided on every run by field-by-field comparison of derived and generated structs for generated and "
+        "round-tripped private keys, and by equal verification decisions on valid and invalid signatures.",
+   note=TB + "F2 (assertion on t0 in derivation) was a genuine defect, repaired in /repo by fix: 0639504.",
+   tech="Lean 4 proof of copied / unread fields + struct-level differential execution"),
+ 'C13': dict(cat='proof', ref='DESIGN 5 C13',
+   text="Partial proof + hostile-input execution. Proved fault-free in Mode.checked for all inputs: scalar kernels on their domains, the inverse NTT on every vector that fits partial_reduce32, all six entry points on over-long contexts, "
+        "keygen and both signers on every failing generator; range self-checks cannot fire on accepted keys; derivation ignores t0. The three pinned-tree panics (F1, F2, F3) are refuted on frozen definitions / removed. Not proved: forward "
+        "NTT and mat_vec_mul envelope, codec index arithmetic, sampler loops; those run on every check in the checked build on random and constructed hostile inputs (random pk/sk/sig, accepted-but-dishonest keys, edited t0, forgeries).",
+   note=TB + "residual: more than 65535/l consecutive rejections would overflow the u16 attempt counter (probability below 2^-256).",
+   tech="Lean 4 no-fault theorems in checked mode + panic-oracle execution of the checked build on hostile inputs"),
+ 'C18': dict(cat='proof', ref='DESIGN 5 C18, 3.2',
+   text="Lean theorems (all inputs, both build modes): the repaired inverse NTT never overflows i32 and returns canonical residues for every input vector within +-2143289343 - in particular for every unreduced output of mat_vec_mul, "
+        "adversarial or not - by a per-layer magnitude invariant; the pinned-tree definition overflows on a constant vector of magnitude 2^23 (F3, kernel evaluation); every generated zeta is a canonical residue. Not proved: congruence of "
+        "ntt / to_mont / Montgomery multiply-accumulate / inv_ntt to the negacyclic product and the forward-transform envelope; decided on every run against Algorithms 41/42 and the schoolbook product in big integers on basis polynomials "
+        "x scalars, every call-site range with extremal sign patterns, and the F3 family.",
+   note=TB + "F3 was a genuine defect, repaired in /repo by fix: 4f7cc8d.",
+   tech="Lean 4 proof by induction over butterfly layers with a magnitude invariant + kernel-evaluated refutation + hook-level differential execution against schoolbook multiplication"),
 }
 
 ORDER = ['C%02d' % i for i in range(1, 19)]
